@@ -388,7 +388,7 @@ pub mod thread {
 
 pub mod sync {
     use super::*;
-    pub use std::sync::{Arc, LockResult, PoisonError};
+    pub use std::sync::{Arc, LockResult, PoisonError, TryLockError, TryLockResult};
 
     static NEXT_MUTEX_ID: std::sync::atomic::AtomicUsize = std::sync::atomic::AtomicUsize::new(1);
 
@@ -472,6 +472,65 @@ pub mod sync {
 
         pub fn is_poisoned(&self) -> bool {
             self.inner.is_poisoned()
+        }
+
+        pub fn clear_poison(&self) {
+            self.inner.clear_poison()
+        }
+
+        pub fn try_lock(&self) -> std::sync::TryLockResult<MutexGuard<'_, T>> {
+            if !in_simulation() {
+                return match self.inner.try_lock() {
+                    Ok(g) => Ok(MutexGuard { inner: Some(g), mutex: self, simulated: false }),
+                    Err(std::sync::TryLockError::Poisoned(p)) => Err(std::sync::TryLockError::Poisoned(PoisonError::new(MutexGuard { inner: Some(p.into_inner()), mutex: self, simulated: false }))),
+                    Err(std::sync::TryLockError::WouldBlock) => Err(std::sync::TryLockError::WouldBlock),
+                };
+            }
+            let me = current_thread().unwrap();
+            let id = self.id();
+            point(1);
+            let got = {
+                let mut g = lock_state();
+                let st = g.as_mut().unwrap();
+                if st.owner.contains_key(&id) {
+                    false
+                } else {
+                    st.owner.insert(id, me);
+                    true
+                }
+            };
+            if !got {
+                return Err(std::sync::TryLockError::WouldBlock);
+            }
+            match self.inner.lock() {
+                Ok(g) => Ok(MutexGuard { inner: Some(g), mutex: self, simulated: true }),
+                Err(p) => Err(std::sync::TryLockError::Poisoned(PoisonError::new(MutexGuard { inner: Some(p.into_inner()), mutex: self, simulated: true }))),
+            }
+        }
+
+        pub fn get_mut(&mut self) -> LockResult<&mut T> {
+            self.inner.get_mut()
+        }
+
+        pub fn into_inner(self) -> LockResult<T> {
+            self.inner.into_inner()
+        }
+    }
+
+    impl<T: Default> Default for Mutex<T> {
+        fn default() -> Self {
+            Mutex::new(T::default())
+        }
+    }
+
+    impl<T> std::fmt::Debug for Mutex<T> {
+        fn fmt(&self, f: &mut std::fmt::Formatter<'_>) -> std::fmt::Result {
+            f.write_str("simsched::Mutex")
+        }
+    }
+    impl<T> std::fmt::Debug for MutexGuard<'_, T> {
+        fn fmt(&self, f: &mut std::fmt::Formatter<'_>) -> std::fmt::Result {
+            f.write_str("simsched::MutexGuard")
         }
     }
 
